@@ -333,7 +333,7 @@ def r13_2(ctx):
         if n[0] in ("l", "r"):
             fn = n[1]
             reached_fns.add(fn)
-            if fn in allowed_fns or fn.startswith("<txtpp::core::execute::config::Config as "):
+            if fn in allowed_fns or fn.startswith("<%s as " % ADT["Config"]):
                 continue
             bad.append(n)
         elif n[0] == "f":
@@ -516,8 +516,8 @@ def r12_4(ctx):
         ctx.violation(["line-ending-table"], "the line-ending sniffing function can return something other than \"\\n\" / \"\\r\\n\"", site=ctx.site(b, bad[0] if bad else 0))
     else:
         ctx.ok("line ending is one of %s" % sorted(vals), site=ctx.site(b, 0))
-    for nm, want in (("txtpp::fs::line_ending::LF", '"\\n"'), ("txtpp::fs::line_ending::CRLF", '"\\r\\n"'), ("txtpp::fs::line_ending::OS_LINE_ENDING", '"\\n"')):
-        c = lib.consts.get(nm)
+    for nm, want in (("LF", '"\\n"'), ("CRLF", '"\\r\\n"'), ("OS_LINE_ENDING", '"\\n"')):
+        c = const_by_name(lib, nm)
         if not c or c["value"] != want:
             ctx.violation(["const", nm], "constant %s is %s, expected %s (unix build)" % (nm, c["value"] if c else None, want))
 
